@@ -6,6 +6,19 @@
 
 use crate::util::metadata::side_metadata::SideMetadataSpec;
 
+/// Hooks for the concurrency protocols (forwarding, mark/log/pin, block pool).
+pub mod conc;
+/// Hooks for the heap data structures (free lists, treadmill).
+pub mod ds;
+/// Event log, yield points and accessors used by the whole-collector harness.
+pub mod gc;
+/// Hooks for heap layout (Map32, chunk-state mmapper, SFT / VM map lookups).
+pub mod layout;
+/// Hooks for side / header metadata.
+pub mod meta;
+/// Hooks for size classes, compressor forwarding, mem-balancer, options.
+pub mod misc;
+
 /// `revisitable_group_by` over a slice of `u64` keyed by `x % modulus` (`modulus == 0` means the
 /// identity key). Returns `(key, reported len, items yielded by the group)` per group.
 pub fn rev_group(items: &[u64], modulus: u64) -> Vec<(u64, usize, Vec<u64>)> {
